@@ -428,6 +428,8 @@ class Check:
             'Python generators/extractors in /verif/checks and /verif/lib; Rust harness harness/libdrive',
         ]
         REPLAY.mkdir(parents=True, exist_ok=True)
+        for old in REPLAY.glob(f'{prop}-*.json'):      # replay files of earlier runs would only confuse
+            old.unlink()
         self.findings = {f['id']: f for f in known_findings(prop)}
 
     def count(self, key, n=1):
